@@ -86,6 +86,7 @@ static void httpRec(vf::Out& o, Daemon& d, const char* src, const string& uri) {
   char b[64]; snprintf(b, sizeof b, ",\"cpl\":%d,\"na\":%d,\"st\":%d", complete ? 1 : 0, static_cast<int>(args.size()), status); l += b;
   l += ",\"m\":" + vf::jbytes(args.size() > 0 ? args[0] : string());
   l += ",\"p\":" + vf::jbytes(args.size() > 1 ? args[1] : string());
+  l += ",\"q\":" + vf::jbytes(args.size() > 2 ? args[2] : string());
   l += ",\"body\":" + vf::jbytes(body.size() > 64 ? body.substr(0, 64) : body) + "}\n";
   o.raw(l);
 }
